@@ -1,4 +1,5 @@
 #![allow(unused_imports, dead_code, unused_variables, unused_mut, unused_parens, unused_assignments)]
+#![verifier::loop_isolation(false)]
 use vstd::prelude::*;
 use std::ops::{Add, Sub, Mul, Div, Neg};
 use std::cmp::Ordering;
